@@ -27,6 +27,10 @@ func (p *Parser) findConvergenEntries() ([]*intfEntry, error) {
 	scope := p.pkg.Types.Scope()
 	for _, name := range scope.Names() {
 		obj := scope.Lookup(name)
+		if _, ok := obj.(*types.TypeName); !ok {
+			// A variable of an interface type is not an interface declaration.
+			continue
+		}
 		_, ok := obj.Type().Underlying().(*types.Interface)
 		if !ok {
 			continue
